@@ -429,6 +429,13 @@ func (s *session) EnqueueBytesAndSend(msg []byte) {
 	s.sendMutex.Lock()
 	defer s.sendMutex.Unlock()
 
+	if !s.IsLoggedOn() {
+		// As in SendAppMessages: application messages still queued must not go out for the first
+		// time outside a logged-on period (e.g. when a ResendRequest is answered after the Logout
+		// has been sent). They are in the store and can be resent.
+		s.dropQueued()
+	}
+
 	s.toSend = append(s.toSend, msg)
 	s.sendQueued(true)
 }
